@@ -296,13 +296,12 @@ class sptenmat:
         subs = None
         if self.subs.size > 0:
             tshape = np.array(self.tshape)
-            rdims = tt_ind2sub(tshape[self.rdims], self.subs[:, 0])
-            cdims = tt_ind2sub(tshape[self.cdims], self.subs[:, 1])
-            subs = np.zeros(
-                (rdims.shape[0], rdims.shape[1] + cdims.shape[1]), dtype=int
-            )
-            subs[:, self.rdims] = rdims
-            subs[:, self.cdims] = cdims
+            subs = np.zeros((self.subs.shape[0], len(self.tshape)), dtype=int)
+            # an empty row (column) mode set has a single row (column) index 0
+            if self.rdims.size > 0:
+                subs[:, self.rdims] = tt_ind2sub(tshape[self.rdims], self.subs[:, 0])
+            if self.cdims.size > 0:
+                subs[:, self.cdims] = tt_ind2sub(tshape[self.cdims], self.subs[:, 1])
             vals = self.vals
         return ttb.sptensor(subs, vals, self.tshape)
 
